@@ -296,3 +296,20 @@ def abstract_action_ctor(text):
     repl = "mk_%s(%s)" % (x, ", ".join(["func", "arg", "address"] + rest))
     text = text[:toks[k].pos] + repl + text[toks[c].pos + 1:]
     return text, n + 1
+
+
+def inline_guard(text, var, expr, lock_call, unlock_call):
+    """R1b/R13: `let [mut] VAR = EXPR.lock().unwrap();` becomes LOCK_CALL and, from there to the end of
+    the item, the guard variable is the locked object itself: `drop(VAR);` becomes UNLOCK_CALL and every
+    other use of VAR becomes EXPR. (Nested fns defined BEFORE the lock statement keep their own
+    parameter of the same name.)"""
+    m = re.search(r"let (?:mut )?%s = %s\.lock\(\)\.unwrap\(\);" % (re.escape(var), re.escape(expr)), text)
+    if not m:
+        return text, 0
+    head, tail = text[:m.start()], text[m.end():]
+    n = 1
+    tail, k = re.subn(r"\bdrop\(%s\);" % re.escape(var), unlock_call, tail)
+    n += k
+    tail, k = re.subn(r"(?<![\w.])%s\b" % re.escape(var), expr, tail)
+    n += k
+    return head + lock_call + tail, n
